@@ -912,6 +912,12 @@ VSattach(HFILEID     f,    /* IN: file handle */
                     HGOTO_ERROR(DFE_ARGS, FAIL);
                 access_rec->posn = 0; /* to fix bugzilla #486 - BMR, Dec, 05 */
             }
+            else if (w->nattach) {
+                /* attached for writing ("being written, unstable! forbidden", as the rules above
+                   say): attaching it once more would replace the access element and the count
+                   of the attachment that is still in use */
+                HGOTO_ERROR(DFE_BADATTACH, FAIL);
+            }
             else {
                 vs = w->vs;
 
